@@ -19,11 +19,11 @@ SLACK = {"f64": 1e-9, "f32": 1e-3}   # rounding slack, in units of s^2 (measured
 minnorm_exact = A.minnorm_exact
 
 
-def oracle(chk, c, dt, found):
+def oracle(chk, c, dt, found, s_exact=None):
     name, p, J = c["name"], c["params"], c["J"]
     m, n = len(J), len(J[0])
-    s = float(A.sigma_max(J))
-    if name in ("UPGrad", "DualProj", "CAGrad") and not s >= float(p["norm_eps"]) * (1 + 1e-4):
+    s = float(A.sigma_max(J)) if s_exact is None else float(s_exact)
+    if s_exact is None and name in ("UPGrad", "DualProj", "CAGrad") and not s >= float(p["norm_eps"]) * (1 + 1e-4):
         return
     out = A.impl_call(name, p, J, dt)
     if out[0] != "ok":
@@ -136,6 +136,8 @@ def run(chk):
             n_ext += 1
             R.extreme_scales(chk, found, c, {"f64": 1e-6, "f32": 5e-3}, "C04", dts=R.dtypes_for(c))
     chk.notes["extreme_scale_cases"] = n_ext
+    # (1c) "for every matrix with s >= norm_eps": equality included (sigma_max returned exactly by the SVD)
+    R.exact_boundary(chk, found, ("UPGrad", "DualProj"), "C04", lambda c, dt, s: oracle(chk, c, dt, found, s_exact=s))
     # (2) exhaustive ternary matrices
     shapes = [(2, 2), (2, 3), (3, 2)] if chk.tier == "quick" else [(2, 2), (2, 3), (3, 2), (3, 3)]
     ex = 0
